@@ -51,7 +51,9 @@ def place_world(c, L, allow_sfm=True, fok_choices=(None, "FILL_OR_KILL"), vwap="
     c.tag("side", side); c.tag("tif", tif); c.tag("bpe", bpe); c.tag("sfm", sfm); c.tag("version", ver)
 
     fl, (client,), (strategy,) = cm.new_sim(client_kwargs=dict(best_price_execution=bpe, simulated_full_match=sfm))
-    bk = cm.book([cm.runner(1, atb=atb, atl=atl)], version=7)
+    # another handicap line of the same selection, listed first, with a very different ladder: the order is on line 0
+    decoy = cm.runner(1, handicap=1.5, atb=[{"price": 900.0, "size": 5000.0}], atl=[{"price": 1.01, "size": 5000.0}])
+    bk = cm.book([decoy, cm.runner(1, atb=atb, atl=atl)], version=7)
     market = cm.add_market(fl, bk)
     order = cm.mk_limit(strategy, side, price, size, tif=tif, mfs=mfs)
     mv = {"none": None, "match": 7, "mismatch": 6}[ver]
